@@ -169,7 +169,7 @@ def run_scenario(sc: dict):
         view = {}
         for p in range(sc["nparts"]):
             ld = self_.leader_for_partition(TopicPartition(TOPIC, p))
-            view[f"{TOPIC}-{p}"] = "noleader" if ld is None or ld == -1 else ld
+            view[f"{TOPIC}-{p}"] = -1 if ld is None or ld == -1 else ld
         log.emit("MdUpdate", view=view)
 
     W.wrap(MessageBatch, "append", after=after_append)
@@ -193,6 +193,10 @@ def run_scenario(sc: dict):
             kw["enable_idempotence"] = True
         else:
             kw["acks"] = "all" if acks == -1 else acks
+        for p_, dur in sc.get("noleader", []):
+            # leader election in progress: Metadata answers LEADER_NOT_AVAILABLE / leader -1 for p_ until `dur`
+            director.stale[(TOPIC, p_)] = -1
+            loop.call_later(dur, lambda p_=p_: director.stale.pop((TOPIC, p_), None), context=cl.ctx)
         prod = AIOKafkaProducer(**kw)
         info["cluster_md"] = prod.client.cluster
         await prod.start()
@@ -207,7 +211,7 @@ def run_scenario(sc: dict):
         view = {}
         for p in range(sc["nparts"]):
             ld = prod.client.cluster.leader_for_partition(TopicPartition(TOPIC, p))
-            view[f"{TOPIC}-{p}"] = "noleader" if ld is None or ld == -1 else ld
+            view[f"{TOPIC}-{p}"] = -1 if ld is None or ld == -1 else ld
         # the trace proper starts here (bootstrap/InitProducerId are outside ProducerCore)
         del log.events[:]
         log.emit("Config", idem=bool(sc["idem"]), acks0=(acks == 0), parts=parts,
